@@ -357,14 +357,33 @@ class Names(object):
         return self.ids[name]
 
 
-def label_code(names, s):
-    return 0 if s == "." else (-1 if s == "" else names(s))
-
-
-def coq_obs(names, o):
+def obs_codes(names, o, ok=True, out=None):
+    """pre-order list of observation numbers (see Corr/C18.v)"""
+    out = [] if out is None else out
     c, vn, kids = o
-    return "O %s %s [%s]" % ("T" if c else "F", clist([label_code(names, s) for s in vn]),
-                             ";".join("(%d,%s,%s)" % (names(s), "T" if ok else "F", coq_obs(names, k)) for s, ok, k in kids))
+    mask = 0
+    for s in vn:
+        mask |= 1 if s == "" else (2 if s == "." else (4 << (names(s) - 1)))
+    out.append((1 if c else 0) + (2 if ok else 0) + 4 * mask)
+    for _s, ok2, k in kids:
+        obs_codes(names, k, ok2, out)
+    return out
+
+
+def plan_shape(plan):
+    """(depth, symbols): depth 0 = chain of symbols, else full tree over the symbols"""
+    if len(plan) == 1 or not plan:
+        seq, p = [], plan
+        while p:
+            assert len(p) == 1
+            seq.append(p[0][0])
+            p = p[0][1]
+        return 0, seq
+    d, p = 0, plan
+    while p:
+        d += 1
+        p = p[0][1]
+    return d, [s for s, _ in plan]
 
 
 def coq_tokens(names, toks):
@@ -544,7 +563,7 @@ def run(ctx):
     ctx.extra["rule"] = (
         "parser: every token string up to length %d over {a . $ * + ? | ( )} (exhaustive) + hand-written + the real patterns, AST/error compared with the model parser; "
         "matcher: every pattern AST up to %d nodes over leaves {a, b, ., (), $} and * (core, exhaustive; + and ? forms sampled), printed to a pattern string, x every symbol sequence "
-        "up to length %d over {a,b,c} as an observation tree (is_complete, valid_next_symbols, match_symbol per branch); the level patterns of the CSV and the pattern literals of "
+        "up to length %d (one less for the largest pattern size) over {a,b,c} as an observation tree (is_complete, valid_next_symbols, match_symbol per branch); the level patterns of the CSV and the pattern literals of "
         "the package over all data-unit names, guided random walks up to length %d. Non-trivial = pattern with at least one accepted and one rejected symbol in its tree. "
         "Oracle: Brzozowski-derivative decision of the pattern language on the harness' own AST, on every pattern satisfying the `$` hypothesis."
         % (ctx.pick(4, 5), N, L, ctx.pick(5, 7)))
@@ -588,7 +607,7 @@ def run(ctx):
         ctx.count(1, key=("parse", s) if code == 0 and a is not None else None, bucket="parser:ok" if code == 0 else "parser:error")
         # independent parser: same language? (checked through the matcher below for the enumerated ones)
     timing["parser_cases"] = round(time.time() - t0, 1)
-    bad = ctx.coq_check_cases("parse", imports, "chk_parse", pcases, shard=1500)
+    bad = ctx.coq_check_cases("parse", imports, "chk_parse", pcases, shard=500)
     timing["parser_coq"] = round(time.time() - t0, 1)
     if bad:
         ctx.obligation("corr:parse_regex agrees with the model parser", False, "corr-shard",
@@ -599,17 +618,18 @@ def run(ctx):
     memo = {}
     leaves = [("s", "a"), ("s", "b"), ANY, E, EOS]
     plan_small = full_plan(["a", "b", "c"], L)
+    plan_top = full_plan(["a", "b", "c"], L - 1)  # the (many) patterns of the largest size: one symbol less
     for size in range(1, N + 1):
         for r in enum_asts(size, leaves, ("*",), memo):
-            cases.append(("enum", show(r), r, plan_small))
+            cases.append(("enum", show(r), r, plan_small if size < N else plan_top))
     # sugar forms (+, ?): sampled
     memo2 = {}
     sugar = []
     for size in range(2, N + 1):
         sugar += [r for r in enum_asts(size, leaves, ("*", "+", "?"), memo2) if "+" in show(r) or "?" in show(r)]
     rng.shuffle(sugar)
-    for r in sugar[: ctx.pick(600, 6000)]:
-        cases.append(("sugar", show(r), r, plan_small))
+    for r in sugar[: ctx.pick(400, 6000)]:
+        cases.append(("sugar", show(r), r, plan_top))
     # a few bigger random ones
     def rand_ast(n):
         if n <= 1:
@@ -656,15 +676,21 @@ def run(ctx):
     coq_cases, meta = [], []
     oracle_fail = {}
     n_oracle = 0
+    by_pat = {}
     for kind, pat, r, plan in cases:
         toks = my_tokens(pat)
         code, _a = real_parse(sr, pat)
         if toks is None or code != 0:
             continue
         obs = observe(sr, pat, plan)
-        idx = len(coq_cases)
-        coq_cases.append("(%s,%s)" % (coq_tokens(names, toks), coq_obs(names, obs)))
-        meta.append((kind, pat, r, obs))
+        if (kind, pat) in by_pat:
+            idx = by_pat[(kind, pat)]
+        else:
+            idx = by_pat[(kind, pat)] = len(coq_cases)
+            coq_cases.append([coq_tokens(names, toks), []])
+            meta.append((kind, pat, r, obs))
+        d, syms = plan_shape(plan)
+        coq_cases[idx][1].append("(%d%%nat,%s,%s)" % (d, clist([names(x) for x in syms]), clist(obs_codes(names, obs))))
         flat = []
         def walk(o):
             for s, ok, k in o[2]:
@@ -673,20 +699,22 @@ def run(ctx):
         walk(obs)
         nodes = len(flat) + 1
         nontrivial = any(flat) and not all(flat)
-        ctx.count(nodes, key=("m", pat) if nontrivial else None, bucket=kind.split(":")[0] + (":hyp" if r is not None and eos_ok(desugar(r)) else ":nohyp"))
-        if idx < 3 or kind.startswith("real") and idx % 97 == 0:
-            ctx.sample({"pattern": pat, "kind": kind, "is_complete_at_start": obs[0], "valid_next_at_start": obs[1]})
+        hyp = r is not None and eos_ok(desugar(r))
+        ctx.count(nodes, key=("m", pat) if nontrivial else None, bucket=kind.split(":")[0] + (":hyp" if hyp else ":nohyp"))
+        if idx < 3 or kind.startswith("real") and len(ctx.samples) < 6 and d == 0:
+            ctx.sample({"pattern": pat, "kind": kind, "plan": [d, syms], "is_complete_at_start": obs[0], "valid_next_at_start": obs[1]})
         # ---- property oracle (hypothesis: `$` only where nothing mandatory follows)
-        if r is not None and eos_ok(desugar(r)):
+        if hyp:
             n_oracle += 1
             fails = oracle_check(orc, r, obs)
             if fails:
-                oracle_fail[idx] = fails
+                oracle_fail.setdefault(idx, []).extend(fails)
+    coq_cases = ["(%s,[%s])" % (t, ";".join(pl)) for t, pl in coq_cases]
     timing["observe_and_oracle"] = round(time.time() - t0, 1)
     ctx.extra["oracle_patterns"] = n_oracle
     ctx.exhaustive = True
 
-    bad_dir = ctx.coq_check_cases("matcher_directed", imports, "chk_matcher Directed", coq_cases, shard=ctx.pick(120, 250), timeout=1200)
+    bad_dir = ctx.coq_check_cases("matcher_directed", imports, "chk_matcher Directed", coq_cases, shard=ctx.pick(130, 200), timeout=1500)
     mode = "directed"
     bad_sym = []
     if bad_dir is None:
